@@ -85,6 +85,7 @@ class NaniteFitModel:
         for attr in [
             "get_parameter_defaults",
             "model_doc",
+            "model_func",
             "model_key",
             "model_name",
             "parameter_keys",
@@ -150,13 +151,17 @@ class NaniteFitModel:
         p_def = list(self.module.get_parameter_defaults().keys())
         p_arg = list(inspect.signature(
             self.module.model_func).parameters.keys())
+        if len(self.module.parameter_keys) != len(p_def):
+            raise ModelImplementationError(
+                "'parameter_keys' and 'get_parameter_defaults' have "
+                + f"different lengths for model '{model_key}'!")
         for ii, key in enumerate(self.module.parameter_keys):
             if key != p_def[ii]:
                 raise ModelImplementationError(
                     "Please check 'parameter_keys' and "
                     + f"'get_parameter_defaults'  of the model '{model_key}'. "
                     + f"Keys {key} and {p_def[ii]} are not in order!")
-            if key != p_arg[ii+1]:
+            if ii + 1 >= len(p_arg) or key != p_arg[ii+1]:
                 warnings.warn(
                     "Please make sure that the parameters of the model "
                     + "function are in the same order as in 'parameter_keys' "
